@@ -16,7 +16,8 @@ CONSTANTS MAXW, MAXH,      \* framebuffers 1..MAXW x 1..MAXH
           OOB,             \* include out-of-range arguments (C02) or stay inside the precondition (C01)
           REORIENT,        \* include set_orientation calls (C10)
           BIGSET,          \* full rectangle / stream alphabet or the reduced one
-          SAMPLE           \* export every SAMPLE-th explored transition (1 = all)
+          SAMPLE,          \* export every SAMPLE-th explored transition (0 = none)
+          STREAMLEN        \* > 0: only draw_iter, with every stream of that length or less over the cells (C03)
 
 VARIABLES cfg,    \* configuration (framebuffer, window, options)
           d,      \* driver-layer state (Driver.tla)
@@ -60,7 +61,11 @@ Rects == IF BIGSET
          ELSE {<<x, y, rw, rh>> : x \in {-1, 0, LS[1] - 1}, y \in {-1, 0, LS[2] - 1}, rw \in {0, 1, LS[1], LS[1] + 1}, rh \in {1, LS[2] + 1}}
 UseRects == IF OOB THEN Rects ELSE {r \in Rects : RectInBox(cfg, o, r)}
 Lens(r) == {0, 1, r[3] * r[4], r[3] * r[4] + 3, -1} \cup (IF r[3] * r[4] > 1 THEN {r[3] * r[4] - 1} ELSE {})
-Streams == IF BIGSET
+RECURSIVE SeqsUpTo(_, _)
+SeqsUpTo(S, k) == IF k = 0 THEN {<<>>} ELSE LET shorter == SeqsUpTo(S, k - 1) IN
+                  shorter \cup {Append(q, e) : q \in {t \in shorter : Len(t) = k - 1}, e \in S}
+AllStreams == {[i \in 1 .. Len(q) |-> <<q[i][1], q[i][2], i>>] : q \in SeqsUpTo(Cells, STREAMLEN)}
+Streams == IF STREAMLEN > 0 THEN AllStreams ELSE IF BIGSET
            THEN {<<>>} \cup {<<<<p[1], p[2], 1>>>> : p \in Cells}
                 \cup {<<<<p[1], p[2], 1>>, <<q[1], q[2], 2>>>> : p \in Cells, q \in Cells}
                 \cup {<<<<p[1], p[2], 1>>, <<p[1] + 1, p[2], 2>>, <<q[1], q[2], 3>>>> : p \in Cells, q \in Cells}
@@ -97,6 +102,7 @@ Do(call) ==
               /\ (call.name = "draw_iter") => Num2C(w1.cmds) <= NumInBox(cfg, o, call.px)                       \* C20
 
 Next ==
+  IF STREAMLEN > 0 THEN \E st \in Streams : Do([name |-> "draw_iter", px |-> st]) ELSE
   \/ \E p \in InCells, c \in {1, 2} : Do([name |-> "set_pixel", x |-> p[1], y |-> p[2], c |-> c])
   \/ \E r \in {q \in UseRects : RectInBox(cfg, o, q) /\ ~REmpty(q)} :
         Do([name |-> "set_pixels", win |-> <<r[1], r[2], RRight(r), RBottom(r)>>,
